@@ -31,6 +31,39 @@ LRA = ("SPECIFICATION Spec\nCONSTANTS\n Threads = {{t1, t2}}\n Keys = {{1, 2, 3}
 LRA_PROPS = "VIEW View\nINVARIANT BoundedSize\nINVARIANT ReturnsCachedValue\nINVARIANT QueueMatchesDict\n"
 
 
+class _Hang(Exception):
+    pass
+
+
+def _watched(fn, seconds: int = 20):
+    """fn() under an alarm (main thread only): a lookup that never comes back becomes an exception of the event, not a hung check."""
+    import signal
+
+    if threading.current_thread() is not threading.main_thread():
+        return fn()
+
+    def on_alarm(signum, frame):
+        raise _Hang()
+
+    old = signal.signal(signal.SIGALRM, on_alarm)
+    signal.alarm(seconds)
+    try:
+        return fn()
+    finally:
+        signal.alarm(0)
+        signal.signal(signal.SIGALRM, old)
+
+
+def _forget_format_infos():
+    """Empty the library's cache of format infos (its own testing hook), after it stopped answering."""
+    try:
+        from pyoda_time.globalization._pyoda_format_info import _PyodaFormatInfo
+
+        getattr(_PyodaFormatInfo, "_PyodaFormatInfo__CACHE").clear()
+    except Exception:  # noqa: BLE001
+        pass
+
+
 def cold(calc, fn):
     """Evaluate fn() with the calculator's year-start cache (and the shared Hebrew cache) emptied, then restore them."""
     from pyoda_time.calendars._hebrew_scriptural_calculator import _HebrewScripturalCalculator as H
@@ -258,14 +291,24 @@ def sequential_events(rnd: random.Random, q: bool) -> list:
             break
         ev = {"op": "fmt", "culture": c.name, "pure": [ord(ch) for ch in pure], "text": [], "n": len(shared)}
         try:
-            ev["text"] = [ord(ch) for ch in LocalDatePattern.create("D", ro).format(probe)]
+            ev["text"] = [ord(ch) for ch in _watched(lambda ro=ro: LocalDatePattern.create("D", ro).format(probe))]
+        except _Hang:
+            ev["exc"] = "HANG"
+            evs.append(ev)
+            _forget_format_infos()          # (the verdict is recorded; the rest of the run goes on with an emptied cache)
+            break
         except Exception as e:  # noqa: BLE001
             ev["exc"] = type(e).__name__
         evs.append(ev)
     for c, ro, pure in shared[:40] + rnd.sample(shared, min(40, len(shared))):
         ev = {"op": "fmt", "culture": c.name, "pure": [ord(ch) for ch in pure], "text": [], "again": True}
         try:
-            ev["text"] = [ord(ch) for ch in LocalDatePattern.create("D", ro).format(probe)]
+            ev["text"] = [ord(ch) for ch in _watched(lambda ro=ro: LocalDatePattern.create("D", ro).format(probe))]
+        except _Hang:
+            ev["exc"] = "HANG"
+            evs.append(ev)
+            _forget_format_infos()
+            break
         except Exception as e:  # noqa: BLE001
             ev["exc"] = type(e).__name__
         evs.append(ev)
@@ -747,6 +790,10 @@ def threaded_events(ctx: Ctx, rnd: random.Random, q: bool) -> list:
             tail_ok = box["ok"]
             evs.append({"op": "thr", "what": "least_recently_added_cache", "all_pure": all(o[1] for o in out) and tail_ok, "identity_stable": True,
                         "hung": bool(hung), "n": len(out)})
+            if hung:
+                break           # (threads that never come back keep running: one such verdict is enough, no more are started)
+        if evs and evs[-1].get("what") == "least_recently_added_cache" and evs[-1]["hung"]:
+            break
     # schedules from the lazy-zone-map model, on a fresh provider over the real data
     raw = open("/dev/null", "rb")
     raw.close()
